@@ -123,7 +123,35 @@ pub struct Explored {
     pub failure: Option<Failure>,
 }
 
+/// Delegates to `S`; on a failing schedule the inner scheduler is leaked instead of dropped, because
+/// shuttle's `RandomScheduler` prints a "failing seed" banner from its destructor (thousands of
+/// lines while shrinking).  The seed is not needed: we report the encoded schedule.
+struct Quiet<S>(std::mem::ManuallyDrop<S>);
+
+impl<S> Drop for Quiet<S> {
+    fn drop(&mut self) {
+        if !std::thread::panicking() {
+            unsafe { std::mem::ManuallyDrop::drop(&mut self.0) }
+        }
+    }
+}
+
+impl<S: Scheduler> Scheduler for Quiet<S> {
+    fn new_execution(&mut self) -> Option<shuttle::scheduler::Schedule> {
+        self.0.new_execution()
+    }
+
+    fn next_task(&mut self, runnable: &[&shuttle::scheduler::Task], current: Option<shuttle::scheduler::TaskId>, is_yielding: bool) -> Option<shuttle::scheduler::TaskId> {
+        self.0.next_task(runnable, current, is_yielding)
+    }
+
+    fn next_u64(&mut self) -> u64 {
+        self.0.next_u64()
+    }
+}
+
 fn run_with<S: Scheduler + 'static, F: Fn() + Send + Sync + 'static>(name: &'static str, s: S, max_steps: usize, f: Arc<F>) -> (u64, Option<Failure>) {
+    let s = Quiet(std::mem::ManuallyDrop::new(s));
     let started = Arc::new(AtomicU64::new(0));
     let st = started.clone();
     LAST_PANIC.with(|p| *p.borrow_mut() = None);
@@ -306,7 +334,122 @@ impl Verdict {
         }
     }
 
+    pub fn is_set(&self) -> bool {
+        self.0.lock().unwrap_or_else(|e| e.into_inner()).is_some()
+    }
+
     pub fn take(&self) -> Option<(String, String)> {
         self.0.lock().unwrap_or_else(|e| e.into_inner()).take()
+    }
+}
+
+/// Number of generated cases `vcore::Session::run_part` will run for a part with these settings
+/// (same arithmetic as the engine), so that checks can state the planned number of schedules.
+pub fn planned_cases(args: &vcore::Args, quick: u32, thorough: u32, threads: usize) -> u64 {
+    let total = args.cases.unwrap_or(match args.tier {
+        vcore::Tier::Quick => quick,
+        vcore::Tier::Thorough => thorough,
+    });
+    let (_, sn) = args.shard;
+    let threads = threads.max(1) as u32;
+    ((total / sn.max(1) / threads).max(1) * threads) as u64
+}
+
+/// Adds a tiny evidence part `<part>.schedules` that carries the *measured* number of shuttle
+/// schedules (extra keys of a part are copied into `coverage.parts` by `./check`).  It has
+/// `evaluations: 0`, so the case totals are not affected.
+pub fn report_schedules(s: &mut vcore::Session, id: &str, part: &str, completed: u64, note: &str) {
+    let name = format!("{part}.schedules");
+    s.push_report(
+        id,
+        &name,
+        vcore::serde_json::json!({
+            "evaluations": 0,
+            "distinct_nontrivial": 0,
+            "rule": format!("measured: shuttle schedules run to completion by part {part} in this run ({note})"),
+            "samples": [],
+            "label_histogram": {},
+            "schedules": completed,
+            "wall_s": 0.0,
+        }),
+        0,
+        false,
+    );
+}
+
+// ------------------------------------------------------------------------------------------------
+// quarantine allocator
+
+/// A global allocator that, while switched on for the current OS thread, does **not** give freed
+/// blocks back: they stay intact (and unreusable) until `release()`.  A use-after-free in the code
+/// under test then reads stale-but-intact memory instead of garbage, so it cannot hang or crash
+/// the harness — and the checks detect it at the logical level (e.g. the executor's waker being
+/// invoked through a `Shared` that has already been freed).  This is what ASan's quarantine does;
+/// ASan itself cannot follow shuttle's coroutine stacks.
+pub mod quarantine {
+    use std::{
+        alloc::{GlobalAlloc, Layout, System},
+        cell::{Cell, UnsafeCell},
+    };
+
+    pub struct Quarantine;
+
+    struct List(UnsafeCell<Vec<(usize, usize, usize)>>);
+
+    thread_local! {
+        static ON: Cell<bool> = const { Cell::new(false) };
+        static BUSY: Cell<bool> = const { Cell::new(false) };
+        static HELD: List = const { List(UnsafeCell::new(Vec::new())) };
+    }
+
+    unsafe impl GlobalAlloc for Quarantine {
+        unsafe fn alloc(&self, l: Layout) -> *mut u8 {
+            unsafe { System.alloc(l) }
+        }
+
+        unsafe fn dealloc(&self, p: *mut u8, l: Layout) {
+            let hold = ON.try_with(|on| on.get()).unwrap_or(false) && !BUSY.try_with(|b| b.replace(true)).unwrap_or(true);
+            if hold {
+                // growing the list may itself free its old buffer: BUSY routes that to the system
+                let _ = HELD.try_with(|h| unsafe { (*h.0.get()).push((p as usize, l.size(), l.align())) });
+                BUSY.with(|b| b.set(false));
+            } else {
+                unsafe { System.dealloc(p, l) }
+            }
+        }
+
+        unsafe fn alloc_zeroed(&self, l: Layout) -> *mut u8 {
+            unsafe { System.alloc_zeroed(l) }
+        }
+
+        unsafe fn realloc(&self, p: *mut u8, l: Layout, new: usize) -> *mut u8 {
+            if ON.try_with(|on| on.get()).unwrap_or(false) {
+                // keep the old block intact
+                let nl = unsafe { Layout::from_size_align_unchecked(new, l.align()) };
+                let np = unsafe { System.alloc(nl) };
+                if !np.is_null() {
+                    unsafe { std::ptr::copy_nonoverlapping(p, np, l.size().min(new)) };
+                    unsafe { self.dealloc(p, l) };
+                }
+                np
+            } else {
+                unsafe { System.realloc(p, l, new) }
+            }
+        }
+    }
+
+    /// Start holding freed blocks on this OS thread (anything still held is released first).
+    pub fn begin() {
+        release();
+        ON.with(|on| on.set(true));
+    }
+
+    /// Stop holding and give everything back.
+    pub fn release() {
+        ON.with(|on| on.set(false));
+        let held = HELD.with(|h| unsafe { std::mem::take(&mut *h.0.get()) });
+        for (p, size, align) in held {
+            unsafe { System.dealloc(p as *mut u8, Layout::from_size_align_unchecked(size, align)) };
+        }
     }
 }
